@@ -22,7 +22,7 @@ import (
 	"verif/harness/xt"
 )
 
-const c10Rule = "fault enumeration: 16 scenarios (SSO POST/Redirect signed/unsigned, callback for a done request in POST / Redirect / body delivery, callback for a pending request, logout, attribute query, metadata signed / unsigned, certificate, readiness, health) x request variants; a dry run lists the storage operations each scenario invokes; every (operation, occurrence) x fault kind {error; for the two signing-key getters also nil record, key without certificate, certificate without key, empty certificate} plus the configuration faults {bogus signature algorithm, rsa-sha512 where the XML signer cannot use it} is injected singly (exhaustive) and in pairs (all pairs in the thorough tier, a seed-dependent sample in quick), plus rapid-generated fault sets of size 1..3 on generated variants. Oracle, asserted only when the fault fired: no panic; reply is HTTP 5xx or a SAML (Logout)Response with non-Success status; no Success assertion, user marker, AttributeValue or SignatureValue in any decoded layer; no successful CreateAuthRequest after the first injected fault. Non-trivial: the injected fault fired. Distinct by (scenario, fault set)."
+const c10Rule = "fault enumeration: 16 scenarios (SSO POST/Redirect signed/unsigned, callback for a done request in POST / Redirect / body delivery, callback for a pending request, logout, attribute query, metadata signed / unsigned, certificate, readiness, health) x request variants; a dry run lists the storage operations each scenario invokes; every (operation, occurrence) x fault kind {error; for the two signing-key getters also nil record, key without certificate, certificate without key, empty certificate; for lookups also an error accompanied by a value; for the user-info setters also an error after part of the record was delivered} plus the configuration faults {bogus signature algorithm, rsa-sha512 where the XML signer cannot use it} is injected singly (exhaustive) and in pairs (all pairs in the thorough tier, a seed-dependent sample in quick), plus rapid-generated fault sets of size 1..3 on generated variants. Oracle, asserted only when the fault fired: no panic; reply is HTTP 5xx or a SAML (Logout)Response with non-Success status; no Success assertion, user marker, AttributeValue or SignatureValue in any decoded layer; no successful CreateAuthRequest after the first injected fault. Non-trivial: the injected fault fired. Distinct by (scenario, fault set)."
 
 type C10Case struct {
 	Scenario string        `json:"scenario"`
@@ -39,7 +39,21 @@ var c10Scenarios = []string{
 
 var c10Signing = map[string]bool{"callback-post-done": true, "callback-redirect-done": true, "callback-body-done": true, "attrquery": true, "metadata-signed": true}
 
-var c10KeyKinds = []string{"error", "nil", "nokey", "nocert", "emptycert"}
+var c10KeyKinds = []string{"error", "nil", "nokey", "nocert", "emptycert", "errval"}
+
+// c10KindsOf lists the fault kinds of an operation: a returned error; for lookups also an error accompanied by a usable value
+// (callers must go by the error); for the user-info setters also an error after part of the record was delivered.
+func c10KindsOf(op string) []string {
+	switch op {
+	case "GetResponseSigningKey", "GetMetadataSigningKey":
+		return c10KeyKinds
+	case "GetEntityByID", "GetEntityIDByAppID", "AuthRequestByID":
+		return []string{"error", "errval"}
+	case "SetUserinfoWithUserID", "SetUserinfoWithLoginName":
+		return []string{"error", "partial"}
+	}
+	return []string{"error"}
+}
 
 // c10Build returns the world spec and the request of a scenario variant.
 func c10Build(scenario string, variant int, now time.Time) (world.Spec, obs.HTTPReq) {
@@ -239,10 +253,7 @@ func c10FaultPoints(scenario string, variant int) []world.Fault {
 	sort.Strings(ops)
 	var out []world.Fault
 	for _, op := range ops {
-		kinds := []string{"error"}
-		if op == "GetResponseSigningKey" || op == "GetMetadataSigningKey" {
-			kinds = c10KeyKinds
-		}
+		kinds := c10KindsOf(op)
 		for occ := 1; occ <= dry.ops[op]; occ++ {
 			for _, k := range kinds {
 				out = append(out, world.Fault{Op: op, Occurrence: occ, Kind: k})
@@ -327,10 +338,7 @@ func genC10Case(t *rapid.T) C10Case {
 	n := rapid.IntRange(1, 3).Draw(t, "nfaults")
 	for i := 0; i < n; i++ {
 		op := pick(t, "op", c10AllOps)
-		kind := "error"
-		if op == "GetResponseSigningKey" || op == "GetMetadataSigningKey" {
-			kind = rapid.SampledFrom(c10KeyKinds).Draw(t, "kind")
-		}
+		kind := rapid.SampledFrom(c10KindsOf(op)).Draw(t, "kind")
 		c.Faults = append(c.Faults, world.Fault{Op: op, Occurrence: rapid.IntRange(0, 3).Draw(t, "occurrence"), Kind: kind})
 	}
 	if rapid.IntRange(0, 5).Draw(t, "algfault") == 0 {
